@@ -130,6 +130,11 @@ def cases(tier, seed):
                     continue
                 yield {"input": ik, "spec": ispec, "desc": dname, "vn": vni,
                        "vd": vdi, "entry": entry,
+                       # the same Runner was used before, with a constant
+                       # overridden for that run only
+                       "prev_override": (dname == "attrs" and entry in (
+                           "runner", "label", "runner_df") and j % 2 == 0),
+                       "dictcases": j % 3 == 1,
                        "strat": strats[(j + ei) % 4],
                        "types": "ifs"[j % 3] + "sfi"[(j // 2) % 3]
                        + "fis"[(j // 5) % 3]}
@@ -202,6 +207,15 @@ def check_case(case):
                 if cs is None:
                     out = xyz.combo_runner_to_ds(f, combos, to_df=to_df,
                                                  **desc_kw, **kw)
+                elif case.get("dictcases"):
+                    dcs = []
+                    for n_, c_ in enumerate(cs):
+                        items = list(zip(cnames, c_))
+                        r_ = n_ % len(items)
+                        dcs.append(dict(items[r_:] + items[:r_]))
+                    out = xyz.case_runner_to_ds(
+                        f, None, dcs, combos=combos, to_df=to_df,
+                        **desc_kw, **kw)
                 else:
                     out = xyz.case_runner_to_ds(
                         f, list(cnames), cs, combos=combos, to_df=to_df,
@@ -213,6 +227,17 @@ def check_case(case):
                 else:
                     far = xyz.Runner(f, **desc_kw)
                 runner = far.runner if entry == "label-harvester" else far
+                if case.get("prev_override"):
+                    with xfn.CallLog():
+                        pk = {k_: v_ for k_, v_ in kw.items()
+                              if k_ != "executor"}
+                        if cs is None:
+                            runner.run_combos(combos, constants={"k": 5}, **pk)
+                        else:
+                            runner.run_cases(cs[:1], fn_args=list(cnames),
+                                             constants={"k": 5}, combos=(
+                                                 tuple(combos.items())
+                                                 if combos else ()), **pk)
                 if entry == "runner_df":
                     kw["to_df"] = True
                 if entry == "label-harvester":
